@@ -100,7 +100,14 @@ template <typename U1, typename R1, typename U2, typename R2, bool DivAllowed> v
 template <typename U, typename R, bool IsFloat = std::is_floating_point<R>::value> struct Pows {
     static void run(int id, int n) {          // integral rep: int_pow<2>, int_pow<3> only
         auto A = Vals<R>::get(n); long bad = 0, narrowed = 0;
-        for (R a : A) { if ((long long)a > 1290 || (long long)a < -1290) continue;
+        for (R a : A) {
+            if (a != 0) {   // integer divided by an integral quantity, divisor wrapped in unblock_int_div: the raw (promoted) quotient, inverse unit
+                auto sq = R{7} / au::unblock_int_div(au::make_quantity<U>(a));
+                auto w = R{7} / a;
+                static_assert(std::is_same<typename decltype(sq)::Rep, decltype(w)>::value, "x / unblock_int_div(q) must have the raw quotient's type");
+                if (sq.in(decltype(sq)::unit) != w) ++bad;
+            }
+            if ((long long)a > 1290 || (long long)a < -1290) continue;
             auto p2 = au::int_pow<2>(au::make_quantity<U>(a)); auto p3 = au::int_pow<3>(au::make_quantity<U>(a));
             auto w2 = a * a; auto w3 = a * a * a;
             if (p2.in(decltype(p2)::unit) != w2) { if (p2.in(decltype(p2)::unit) == static_cast<R>(w2)) ++narrowed; else ++bad; }
@@ -120,6 +127,12 @@ template <typename U, typename R> struct Pows<U, R, true> {
             if (!same_bits<R>(p3.in(decltype(p3)::unit), a * (a * a)) && !same_bits<R>(p3.in(decltype(p3)::unit), (a * a) * a)) ++bad;
             if (!same_bits<R>(m1.in(decltype(m1)::unit), R{1} / a)) ++bad;
             if (!same_bits<R>(m2.in(decltype(m2)::unit), R{1} / (a * a))) ++bad;
+            // raw number divided by a quantity: the raw quotient, in the inverse unit
+            auto sq = R{3} / q;
+            static_assert(std::is_same<typename decltype(sq)::Unit, typename decltype(m1)::Unit>::value, "x / q must have the inverse unit");
+            if (!same_bits<R>(sq.in(decltype(sq)::unit), R{3} / a)) ++bad;
+            auto qs = q / R{3}; auto sm = R{3} * q; auto ms = q * R{3};
+            if (!same_bits<R>(qs.in(U{}), a / R{3}) || !same_bits<R>(sm.in(U{}), R{3} * a) || !same_bits<R>(ms.in(U{}), a * R{3})) ++bad;
             if (!same_bits<R>(s.in(decltype(s)::unit), std::sqrt(a))) ++bad;
             if (!same_bits<R>(c.in(decltype(c)::unit), std::cbrt(a))) ++bad;
         }
